@@ -447,13 +447,6 @@ theorem jump_threshold_spec (cfg : OpenListCfg) (total : Rat) (n : Nat) :
       | some jf, some q =>
         some (if cfg.takeHigher then max (total * jf) (q total n * cfg.quotaFraction)
               else min (total * jf) (q total n * cfg.quotaFraction)) := by
-  have hq : ∀ q, cfg.quota = some q → ∃ q', cfg.quotaFunction = some q' ∧ q' total n = q total n * cfg.quotaFraction := by
-    intro q hq
-    unfold OpenListCfg.quotaFunction
-    rw [hq]
-    by_cases h1 : cfg.quotaFraction = 1
-    · exact ⟨q, by simp [h1], by rw [h1, mul_one]⟩
-    · exact ⟨fun v s => q v s * cfg.quotaFraction, by simp only [ne_eq, h1, not_false_eq_true, if_true], rfl⟩
   have hmax : ∀ a b : Rat, Py.pyMax a b = max a b := by
     intro a b; unfold Py.pyMax
     rcases lt_or_ge a b with h | h
@@ -465,28 +458,22 @@ theorem jump_threshold_spec (cfg : OpenListCfg) (total : Rat) (n : Nat) :
     · rw [if_pos h, min_eq_right (le_of_lt h)]
     · rw [if_neg (not_lt.mpr h), min_eq_left h]
   unfold jumpThreshold
-  cases hj : cfg.jumpFraction <;> cases hqq : cfg.quota
-  · simp [OpenListCfg.quotaFunction, hqq]
-  · obtain ⟨q', h1, h2⟩ := hq _ hqq
-    simp [h1, h2]
-  · simp [OpenListCfg.quotaFunction, hqq]
-  · obtain ⟨q', h1, h2⟩ := hq _ hqq
-    simp [h1, h2, hmax, hmin]
+  cases hj : cfg.jumpFraction <;> cases hqq : cfg.quota <;> simp [hmax, hmin]
 
 /-- **quota_fraction_scales_quota.**  For every quota function (by name or callable) and every quota fraction, the
-    quota part of the jump threshold is `quota(V, n) · quota_fraction`: the wrapper built in `__init__` scales the
-    QUOTA, never the vote total or the seat count.  (With only a quota configured this is the threshold itself.) -/
+    quota part of the jump threshold is `quota(V, n) · quota_fraction`: the fraction scales the QUOTA, never the vote
+    total or the seat count.  With only a quota configured this is the threshold itself; together with a jump
+    fraction it is the second of the two numbers of which the lower (or, with `take_higher`, the higher) is taken. -/
 theorem quota_fraction_scales_quota (cfg : OpenListCfg) (q : Rat → Nat → Rat) (hq : cfg.quota = some q)
     (total : Rat) (n : Nat) :
-    (∃ q', cfg.quotaFunction = some q' ∧ q' total n = q total n * cfg.quotaFraction) ∧
-    (cfg.jumpFraction = none → jumpThreshold cfg total n = some (q total n * cfg.quotaFraction)) := by
+    (cfg.jumpFraction = none → jumpThreshold cfg total n = some (q total n * cfg.quotaFraction)) ∧
+    (∀ jf, cfg.jumpFraction = some jf → jumpThreshold cfg total n =
+      some (if cfg.takeHigher then max (total * jf) (q total n * cfg.quotaFraction)
+            else min (total * jf) (q total n * cfg.quotaFraction))) := by
   constructor
-  · unfold OpenListCfg.quotaFunction
-    rw [hq]
-    by_cases h1 : cfg.quotaFraction = 1
-    · exact ⟨q, by simp [h1], by rw [h1, mul_one]⟩
-    · exact ⟨fun v s => q v s * cfg.quotaFraction, by simp only [ne_eq, h1, not_false_eq_true, if_true], rfl⟩
   · intro hj
+    rw [jump_threshold_spec, hj, hq]
+  · intro jf hj
     rw [jump_threshold_spec, hj, hq]
 
 /-- no jump fraction and no quota: the first `n` of the list -/
